@@ -16,8 +16,8 @@ own `Fq2` arithmetic) by kernel computation on coefficient lists.
 
 Everything is stated for an abstract field `F` carrying the model's extra operations
 (`LawfulFieldOps`), then instantiated at `Fq` (`iso11`).  For `iso3` the instantiation takes a
-`Field Fq2` structure as an argument, together with the fact that its `+ * 0 1` are the model's
-(`Fq2FieldAgrees`, provable by `⟨rfl, rfl, rfl, rfl⟩` for an instance built on the model's
+`Field Fq2` structure as an argument, together with the fact that its `+ * 0 1 -` are the model's
+(`Fq2FieldAgrees`, provable by `⟨rfl, rfl, rfl, rfl, rfl⟩` for an instance built on the model's
 operations), because the field structure of `Fq2` is established in another module.
 -/
 import PP.Proofs.IsoPoly
@@ -161,6 +161,10 @@ theorem isoMapval_spec (z x : F) (n : Nat) (cs : List F) (hn : cs.length ≤ n) 
     rw [e1, e2, ← pow_mul]
     ring
 
+
+/-- the model's `is_zero` -/
+theorem jac_isZero_iff (p : Jac F) : p.isZero = true ↔ p.z = 0 := by
+  unfold Jac.isZero; exact LawfulFieldOps.isZero_iff _
 
 /-! ## the evaluation -/
 
@@ -331,6 +335,38 @@ theorem iso_onCurve (sh : IsoShape xnum xden ynum yden) (A' B' b : F)
       linear_combination (c ^ 3 * XD ^ 3 * e ^ 2 * YN ^ 2) * hy + (c ^ 3 * e ^ 2 * p.z ^ 6) * hid
     linear_combination ((c * XD) ^ 3 * (e * YD * p.z * p.z ^ 2) ^ 4) * key
 
+/-- compatibility with negation: the `y`-map is odd in `y` -/
+theorem iso_neg_coords (sh : IsoShape xnum xden ynum yden) (p : Jac F) :
+    evalIso xnum xden ynum yden ⟨p.x, -p.y, p.z⟩ =
+      ⟨(evalIso xnum xden ynum yden p).x, -(evalIso xnum xden ynum yden p).y,
+        (evalIso xnum xden ynum yden p).z⟩ := by
+  rw [evalIso_eq sh, evalIso_eq sh]
+  dsimp only
+  rw [Jac.mk.injEq]
+  refine ⟨rfl, by ring, rfl⟩
+
+/-- … with the model's `negate` on both sides (all cases: identity, kernel points, the rest) -/
+theorem iso_neg (sh : IsoShape xnum xden ynum yden) (p : Jac F) :
+    evalIso xnum xden ynum yden p.neg = (evalIso xnum xden ynum yden p).neg := by
+  unfold Jac.neg
+  by_cases hz : p.z = 0
+  · have h1 : p.isZero = true := (jac_isZero_iff p).mpr hz
+    have h2 : (evalIso xnum xden ynum yden p).isZero = true :=
+      (jac_isZero_iff _).mpr (iso_identity p hz)
+    rw [if_pos h1, if_pos h2]
+  · have h1 : ¬ p.isZero = true := fun h => hz ((jac_isZero_iff p).mp h)
+    rw [if_neg h1, iso_neg_coords sh]
+    split
+    · next h2 =>
+      have hz3 := (jac_isZero_iff _).mp h2
+      have hy : (evalIso xnum xden ynum yden p).y = 0 := by
+        rw [evalIso_eq sh] at hz3 ⊢
+        dsimp only at hz3 ⊢
+        rw [hz3]; ring
+      rw [hy, neg_zero]
+      rw [← hy]
+    · rfl
+
 end generic
 
 /-! ## the polynomial identity as an identity of coefficient lists -/
@@ -357,6 +393,14 @@ theorem IsoIdent.eval {A' B' b : F} {xnum xden ynum yden : List F}
   have := congrArg (fun l => evalP l x) h
   simp only [evalP_mulP, evalP_addP, evalP_scaleP, evalP_sqP, evalP_cubeP, evalP_cons, evalP_nil] at this
   linear_combination this
+
+/-- if `XD = K²` and `YD = K³` as coefficient lists, the poles are the roots of `K` -/
+theorem pole_iff {xden yden ker : List F} (hx : xden = sqP ker) (hy : yden = cubeP ker) (x : F) :
+    (evalP xden x = 0 ∨ evalP yden x = 0) ↔ evalP ker x = 0 := by
+  rw [hx, hy, evalP_sqP, evalP_cubeP]
+  constructor
+  · rintro (h | h) <;> exact pow_eq_zero_iff (by norm_num) |>.mp h
+  · intro h; left; rw [h]; ring
 
 end generic
 
@@ -385,6 +429,19 @@ theorem iso11_ident : IsoIdent g1EllpA g1EllpB g1Codec.b iso11XNum iso11XDen iso
 theorem iso11_leading : iso11XDen.getLast? = some 1 ∧ iso11YDen.getLast? = some 1 ∧
     iso11XNum.getLast? ≠ some 0 ∧ iso11YNum.getLast? ≠ some 0 := by decide +kernel
 
+/-- the kernel polynomial `K = Π (x − xᵢ)` over the five abscissae of the rational kernel points:
+    `XD = K²`, `YD = K³` -/
+def iso11Ker : List Fq :=
+  [Zp.ofNat 0x133341fb0962a34cb0504a9c4fada0a5090d38679b4c040d5d1c3afb023a3409fcc0815fea66d8b02bbef9c8b5a66e07,
+   Zp.ofNat 0x264908af037bcede00d054cf5d4775e83eb6cf63c76b969f8ed174fb59fcff78d201f46f6cfc4ed6552e59ce75177b0,
+   Zp.ofNat 0x1335c502c1f54c49aceea65e87fd7203ba0f626f305fc0cfd606a5dae9f3c8e81a4b3b69600129fabd307c69bf319d39,
+   Zp.ofNat 0x94440f65f408a6e930e16e3e92dd17bf60d6e9679a8d3d58593de55ac23703042d609537eb3549aac234d896ca82944,
+   Zp.ofNat 0x4afe09d5cf4956a23b6b71f59d2b3407b415a774b7be81bbb6fa99cbc798e0ac98ba725a5bc328016b1c268b4766e85,
+   1]
+
+theorem iso11_xden_ker : iso11XDen = sqP iso11Ker := by decide +kernel
+theorem iso11_yden_ker : iso11YDen = cubeP iso11Ker := by decide +kernel
+
 /-! ## G2: the 3-isogeny -/
 
 def iso3XNum : List Fq2 := Gen.ISO3_XNUM.map Fq2.ofMont
@@ -409,12 +466,18 @@ theorem iso3_ident : IsoIdent g2EllpA g2EllpB g2Codec.b iso3XNum iso3XDen iso3YN
 theorem iso3_leading : iso3XDen.getLast? = some 1 ∧ iso3YDen.getLast? = some 1 ∧
     iso3XNum.getLast? ≠ some 0 ∧ iso3YNum.getLast? ≠ some 0 := by decide +kernel
 
+/-- the kernel polynomial `K = x − x₀`, `x₀ = −6 + 6u`: `XD = K²`, `YD = K³` -/
+def iso3Ker : List Fq2 := [⟨Zp.ofNat 6, -Zp.ofNat 6⟩, 1]
+
+theorem iso3_xden_ker : iso3XDen = sqP iso3Ker := by decide +kernel
+theorem iso3_yden_ker : iso3YDen = cubeP iso3Ker := by decide +kernel
+
 /-! ## `Fq2`: a field structure that agrees with the model's operations
 
 The `Field Fq2` structure is built in another module.  The theorems about `iso3` take it as an
 instance argument; since `iso3` is *defined* with the model's `+ * 0` (`Fq2.instAdd`, …), they also
-take the fact that the `+ * 0 1` of the field structure are those.  For a field structure defined on
-the model's operations this is `⟨rfl, rfl, rfl, rfl⟩`. -/
+take the fact that the `+ * 0 1 -` of the field structure are the model's.  For a field structure defined on
+the model's operations this is `⟨rfl, rfl, rfl, rfl, rfl⟩`. -/
 
 /-- the `+` of a field structure, as a bare notation-class instance -/
 @[reducible] def addOf (F : Type) [Field F] : Add F := inferInstance
@@ -424,29 +487,27 @@ the model's operations this is `⟨rfl, rfl, rfl, rfl⟩`. -/
 @[reducible] def zeroOf (F : Type) [Field F] : Zero F := inferInstance
 /-- the `1` of a field structure -/
 @[reducible] def oneOf (F : Type) [Field F] : One F := inferInstance
+/-- the `-` (negation) of a field structure -/
+@[reducible] def negOf (F : Type) [Field F] : Neg F := inferInstance
 
-/-- the field structure `fld` on `Fq2` has the model's `+ * 0 1` -/
+/-- the field structure `fld` on `Fq2` has the model's `+ * 0 1 -` -/
 structure Fq2FieldAgrees (fld : Field Fq2) : Prop where
   add : addOf Fq2 = Fq2.instAdd
   mul : mulOf Fq2 = Fq2.instMul
   zero : zeroOf Fq2 = Fq2.instZero
   one : oneOf Fq2 = Fq2.instOne
+  neg : negOf Fq2 = Fq2.instNeg
 
-/-- `fq2_align h` (`h : Fq2FieldAgrees fld`): replace the model's `+ * 0 1` on `Fq2` by those of the
+/-- `fq2_align h` (`h : Fq2FieldAgrees fld`): replace the model's `+ * 0 1 -` on `Fq2` by those of the
     field structure, everywhere in the goal and the context -/
 macro "fq2_align " h:term : tactic => `(tactic| (
-  obtain ⟨ha, hm, hz, ho⟩ := $h
+  obtain ⟨ha, hm, hz, ho, hn⟩ := $h
   generalize Fq2.instAdd = ia at *
   generalize Fq2.instMul = im at *
   generalize Fq2.instZero = iz at *
   generalize Fq2.instOne = io at *
-  subst ha hm hz ho))
-
-/-! ## the model's `is_zero` -/
-
-theorem jac_isZero_iff {F : Type} [Field F] [FieldOps F] [LawfulFieldOps F] (p : Jac F) :
-    p.isZero = true ↔ p.z = 0 := by
-  unfold Jac.isZero; exact LawfulFieldOps.isZero_iff _
+  generalize Fq2.instNeg = ineg at *
+  subst ha hm hz ho hn))
 
 end Iso
 end PP
